@@ -6,14 +6,18 @@ CHECKS = [
     {'id': 'C01', 'memwire': True, 'level': 'fault_enumeration',
      'text': 'Fault enumeration over the encrypted stream: for every cipher '
              'x MAC pair asyncssh registers (compression none in quick, all '
-             'three in thorough), both directions, and 14 tamper shapes '
+             'three in thorough), both directions, and 15 tamper shapes '
              '(bit flips in length / first block / body / padding / tag, '
-             'truncate, drop, duplicate, swap, splice, insert) on an IGNORE '
+             'truncate, drop, duplicate, swap, splice, a record of the '
+             'opposite direction sent under the same sequence number, '
+             'insert) on an IGNORE '
              'and on a DATA record, plus Hypothesis-generated workloads, bit '
              'positions and record indices, plus tampering of the encrypted '
              'auth/session-setup dialogue. Oracle: delivered data == data '
              'carried by untouched records, immediate failure when the '
-             'length field is intact, error (never clean close) at the end.',
+             'length field is intact - by the integrity check itself '
+             '(MACError), not by a parser of the unauthenticated content - '
+             'and an error (never a clean close) at the end.',
      'note': 'Both endpoints asyncssh; wire parameters derived from algorithm '
              'names; one packet per transport.write; finite grid is '
              'exhaustive over algorithms x shapes, not over bit positions.',
@@ -95,7 +99,10 @@ CHECKS = [
      'text': 'Complete enumeration of victim role x strict-KEX x 9 '
              'positions of the handshake/auth/session dialogue x message '
              'types 1..104 x shapes (quick: 3 shapes, thorough: 4) x '
-             'credential scenario, injected by an independent peer holding '
+             'credential scenario (victim client built the connect() way; '
+             'the same grid against the acceptor-based client of '
+             'listen_reverse() in family reverse-client), injected by an '
+             'independent peer holding '
              'the real keys; plus keyless cleartext insertion / encrypted '
              'drop around NEWKEYS (Terrapin shape) and generated pairs of '
              'injections. Oracle: the victim either ends the connection '
@@ -129,7 +136,9 @@ CHECKS = [
              'quiescent point received == min(written, granted) (no stall, no '
              'deadlock). Receiver side: a peer sending inside / exactly at / '
              'beyond the window asyncssh granted while the application reads '
-             'or has reading paused: inside => delivered in order and the '
+             'or has reading paused, on bytes channels, text channels (UTF-8 '
+             'cut inside characters, packets holding only part of one) and '
+             'tun/tap channels: inside => delivered in order and the '
              'window is replenished; beyond => protocol error and nothing of '
              'the excess delivered. Streams: SSHReader programs with reads '
              'around and above the window, early or late, while the peer '
@@ -180,7 +189,10 @@ CHECKS = [
      'text': 'Server under test driven at the SFTP framing level (all 21 '
              'request types and 9 extensions, versions 3-6, bodies valid / '
              'truncated at each field or byte / with trailing bytes / unknown '
-             'type / unknown extension, pipelined, injected OSError and '
+             'type / unknown extension (generated, and enumerated completely '
+             'per request type x version x field boundary in family bodies; '
+             'an extended body is a bad message below version 6), '
+             'pipelined, injected OSError and '
              'SFTPError): multiset of reply ids == request ids, reply type '
              'legal for the request, BAD_MESSAGE / OP_UNSUPPORTED and errno '
              'mapping per version, session stays usable. Client under test '
@@ -291,8 +303,14 @@ CHECKS = [
              'grid of peer-announced window x maximum packet size x quirk '
              'version x compression followed by writes (non-progressing send '
              'loops); hostile SCP conversations against the four asyncssh SCP '
-             'roles; random and mutated valid inputs to 14 decoders (any '
-             'exception class other than the documented one is a violation). '
+             'roles; random and mutated valid inputs to 14 decoders, '
+             'containers written field by field (openssh-key-v1 with every '
+             'padding shape and degenerate RSA parameters; DER keys with '
+             'leaves replaced by values of other ASN.1 types) and DER of '
+             'extreme shape (nesting, tag and OID runs) under a CPU bound '
+             '(any exception class other than the documented one is a '
+             'violation); SFTP copy-data of a file onto itself under a file '
+             'size limit (work proportional to the request). '
              'Oracle: '
              'no exception escapes data_received, output and loop steps per '
              'chunk bounded, owner told exactly once, loop exception handler '
